@@ -2,7 +2,10 @@
 // One case per input line, fields separated by one space, strings as hex UTF-16 code units
 // (4 hex digits per unit, "-" = empty (non-null) string, "~" = null pointer for category/file/function
 // and a null QString for the message):
-//   pat type msg cat file fn line nattr (key tval)* ntf (timefmt)*
+//   pat type msg cat file fn line nattr (key tval)* ntf (timefmt)* [prefmt twice]
+//   prefmt = ~ (none) or the text given to setFormattedMessage() BEFORE format() is called (another formatter ran first);
+//   twice = 1: the formatter is first run through Formatter::process() on the message, then format() is observed.
+//   %{message} is the raw message text in every case.
 //   tval = s<hex> (QString; s~ = null QString, s- = empty) | i<decimal> (int / qlonglong) | b0 | b1 (bool)
 //
 // default mode, output line:
@@ -55,6 +58,7 @@ struct Case
     QByteArray c, f, fu;        // buffers the message's context points into
     std::unique_ptr<LogMessage> m;
     std::vector<QString> tfs;
+    bool twice = false;         // run the formatter through Formatter::process() once before the observed format() call
     // threads mode
     std::unique_ptr<PatternFormatter> pf;
     QString expected, firstBad;
@@ -83,6 +87,12 @@ static void parse(const std::string &line, Case &k)
     }
     is >> ntf;
     for (int i = 0; i < ntf; i++) { std::string t; is >> t; k.tfs.push_back(unhex(t)); }
+    // optional: the message already carries formatter output / is formatted twice in a row
+    std::string pre, twice;
+    if (is >> pre >> twice) {
+        if (pre != "~") k.m->setFormattedMessage(unhex(pre));
+        k.twice = (twice == "1");
+    }
 }
 static int threadsMode(int K, long rounds, long maxms)
 {
@@ -142,6 +152,7 @@ int main(int argc, char **argv)
                 (void)PatternFormatter(QStringLiteral("p%{verif_poison_attr?0,3}")).format(pm);
             }
             PatternFormatter pf(k.pat);
+            if (k.twice) pf.process(m);   // = m.setFormattedMessage(pf.format(m)): the message now carries formatter output
             const QString res = pf.format(m);
             o << hex(res) << ' ' << (res.isNull() ? 'N' : 'V') << ' ' << m.threadId() << ' ' << qulonglong(m.qthreadptr()) << ' '
               << hex(PatternFormatter(QStringLiteral("%{func}")).format(m));
